@@ -15,7 +15,8 @@ SeqOps == {"ShiftLeft", "ShiftRight", "RotateLeft", "RotateRight", "Index", "Sli
            "BitSelect", "WordSelect", "BitSelectC", "WordSelectC", "Matches"}
 Leaves == {"PushSig", "PushConst"}
 AllOps == UnOps \cup BinOps \cup Leaves \cup SeqOps \cup {"Mux", "ArrayIndex"}
-TernOps == Leaves \cup {"Mux", "ArrayIndex", "Cat"}
+ConstOps == {"PushConst", "Cat", "Slice", "Index", "SliceStep", "Replicate", "RotateLeft", "RotateRight"}
+TernOps ==Leaves \cup {"Mux", "ArrayIndex", "Cat"}
 Amts == {-5, -1, 0, 1, 2, 5}
 Amts2 == {-1, 1, 2}
 Ix == {-5, -2, -1, 0, 1, 2, 3, 6}
